@@ -1168,6 +1168,32 @@ def r_operand_multiplicity(prog: Program, col: Collector, refs: Refs, cat: Catal
                     seq_names.add(x.targets[0].id)
                 if isinstance(v, ast.ListComp) and len(v.generators) == 1 and not v.generators[0].ifs and isinstance(v.generators[0].iter, ast.Name) and v.generators[0].iter.id in seq_names:
                     seq_names.add(x.targets[0].id)  # one entry per operand, in order
+        # (b) a mapping / set keyed by the operands themselves, read back as a per-operand sequence (`.values()`, iteration, len): a repeated
+        # operand is one key, so whatever is derived per operand (its variables, its size) is counted once
+        for d in walk_no_nested(f.node):
+            keyed = None
+            if isinstance(d, (ast.DictComp, ast.SetComp)) and isinstance(d.generators[0].iter, ast.Name) and d.generators[0].iter.id in seq_names \
+                    and isinstance(d.generators[0].target, ast.Name):
+                key = d.key if isinstance(d, ast.DictComp) else d.elt
+                if isinstance(key, ast.Name) and key.id == d.generators[0].target.id:
+                    keyed = d
+            if isinstance(d, ast.Call) and isinstance(d.func, ast.Attribute) and d.func.attr == "fromkeys" and d.args and isinstance(d.args[0], ast.Name) and d.args[0].id in seq_names:
+                keyed = d
+            if keyed is None:
+                continue
+            st = keyed
+            while not isinstance(st, ast.stmt):
+                st = f.module.parent.get(st)
+            name = st.targets[0].id if isinstance(st, ast.Assign) and len(st.targets) == 1 and isinstance(st.targets[0], ast.Name) else None
+            as_sequence = name is not None and any(
+                (isinstance(u, ast.Call) and isinstance(u.func, ast.Attribute) and u.func.attr in ("values", "items") and isinstance(u.func.value, ast.Name) and u.func.value.id == name)
+                or (isinstance(u, (ast.For, ast.comprehension)) and isinstance(u.iter, ast.Name) and u.iter.id == name)
+                or (isinstance(u, ast.Call) and isinstance(u.func, ast.Name) and u.func.id in ("len", "list", "tuple") and u.args and isinstance(u.args[0], ast.Name) and u.args[0].id == name)
+                for u in ast.walk(f.node))
+            n += 1
+            col.check(not as_sequence, f"{f.fq}::{norm(keyed)[:60]}", "used for lookup only",
+                      f"`{norm(keyed)[:60]}` is keyed by the operands and then read back as if it had one entry per operand: operands are interned, so a factor that occurs twice "
+                      "(x * x * y) is one key - the variables of the second occurrence are not counted and a reduction is placed as if the variable occurred once less", f.loc(keyed))
         if not counters:
             continue
         for lp in [x for x in walk_no_nested(f.node) if isinstance(x, ast.For)]:
@@ -1672,12 +1698,32 @@ def r_size_product_over_sequence(prog: Program, col: Collector, refs: Refs, cat:
                 continue
             callee = refs.resolve(c.func) if isinstance(c.func, (ast.Name, ast.Attribute)) else None
             it = None
+            wrong_fold = None
             if callee == "functools.reduce" and len(c.args) >= 2:
                 fold = c.args[0]
                 r0 = refs.resolve(fold) if isinstance(fold, (ast.Name, ast.Attribute)) else None
                 o = cat.resolve_op(f.module, fold) if isinstance(fold, (ast.Name, ast.Attribute)) else None
                 if (o is not None and axioms.identify(cat, o) == "MUL") or r0 in ("operator.mul",):
                     it = c.args[1]
+                elif (o is not None and axioms.identify(cat, o) in ("ADD", "MAX", "MIN", "OR", "AND")) or r0 in ("operator.add", "builtins.max", "builtins.min"):
+                    # sizes of SEVERAL variables folded with something else than a product: the number of joint assignments of
+                    # i (size 2) and j (size 3) is 6, not 5
+                    it2 = c.args[1]
+                    elt2 = it2.elt if isinstance(it2, (ast.SetComp, ast.ListComp, ast.GeneratorExp)) else None
+                    if elt2 is not None and isinstance(it2.generators[0].target, ast.Name):
+                        tv = it2.generators[0].target.id
+                        is_size = any(isinstance(x, ast.Attribute) and x.attr in ("size", "num_elements") and any(isinstance(y, ast.Name) and y.id == tv for y in ast.walk(x))
+                                      for x in ast.walk(elt2))
+                        # the size of a variable's DOMAIN (v.output.size), not the element count of an array
+                        over_vars = any(isinstance(x, ast.Attribute) and x.attr in ("size", "num_elements") and isinstance(x.value, ast.Attribute) and x.value.attr == "output"
+                                        for x in ast.walk(elt2))
+                        if is_size and over_vars:
+                            wrong_fold = (fold, it2)
+            if wrong_fold is not None:
+                n += 1
+                col.violation(f"{f.fq}::{norm(c)[:60]}", f"the sizes of several variables are folded with `{norm(wrong_fold[0])}`: the number of joint values of the variables is the PRODUCT of "
+                              "their sizes (2 and 3 give 6 points, not 5), so a multiplicity / normaliser computed from it is wrong whenever more than one variable is involved", f.loc(c))
+                continue
             elif callee in ("math.prod", "numpy.prod") and c.args:
                 it = c.args[0]
             if it is None:
@@ -2296,3 +2342,49 @@ def r_guarded_reduce_has_alternative(prog: Program, col: Collector, refs: Refs, 
                       f"`{recv}` is reduced over `{left}` only if it mentions it, and there is no alternative branch: when `{recv}` does not depend on `{left}` the reduction is skipped "
                       "altogether, although summing a constant over a variable of size n gives n times the constant (a product: its n-th power)", f.loc(node))
     col.cur.analysed["guarded_reductions"] = n
+
+
+# ---------------------------------------------------------------------- the tables the rewrites read (shared with C15 R15.1 / R15.2 / R15.6)
+
+
+def r_units_and_distributive_tables(prog: Program, col: Collector, refs: Refs, cat: Catalogue, rule_units: str, rule_dist: str):
+    """Unit elimination drops operands equal to UNITS[op]; pushing a reduction into operands / unfolding relies on DISTRIBUTIVE_OPS.
+    A wrong table entry makes the normalised, unfolded and optimised terms disagree with naive evaluation, so both tables are compared
+    with the analyser's own algebra (same engine as C15 R15.1 / R15.2)."""
+    def ident(mod, expr):
+        op = cat.resolve_op(mod, expr)
+        return (None, None) if op is None else (op, axioms.identify(cat, op))
+    col.rule(rule_units, "UNITS[op] is the neutral element of op (what unit elimination drops)", floor=6)
+    for e in cat.table_entries(T + "UNITS"):
+        construct = f"UNITS[{norm(e.key)}]"
+        if e.value is None:
+            col.unresolved(construct, f"opaque write to UNITS: {norm(e.node)}", e.loc)
+            continue
+        op, ab = ident(e.module, e.key)
+        val = const_value(e.value)
+        if ab is None or val is NotImplemented:
+            col.unresolved(construct, f"cannot resolve op or constant ({norm(e.key)} -> {ab}, {norm(e.value)})", e.loc)
+            continue
+        m = axioms.neutral_matches(ab, val)
+        if m is None:
+            col.unresolved(construct, f"no neutral element known for {ab}", e.loc)
+        else:
+            col.check(m, construct, f"{norm(e.value)} is neutral for {ab}",
+                      f"UNITS[{norm(e.key)}] = {norm(e.value)} but the neutral element of {ab} is {axioms.NEUTRAL[ab][1]!r}: unit elimination drops an operand that is not neutral, so the "
+                      "normalised term and naive evaluation differ", e.loc)
+    col.rule(rule_dist, "every declared (sum, prod) pair distributes (what push-down and unfolding rely on)", floor=6)
+    for e in cat.table_entries(T + "DISTRIBUTIVE_OPS"):
+        construct = f"DISTRIBUTIVE_OPS.add({norm(e.key)})"
+        if not (isinstance(e.key, ast.Tuple) and len(e.key.elts) == 2):
+            col.unresolved(construct, "entry is not a literal pair", e.loc)
+            continue
+        (_, a), (_, m) = ident(e.module, e.key.elts[0]), ident(e.module, e.key.elts[1])
+        if a is None or m is None:
+            col.unresolved(construct, f"cannot resolve ops ({a}, {m})", e.loc)
+            continue
+        d = axioms.distributive(a, m)
+        if d is None:
+            col.unresolved(construct, f"pair ({a}, {m}) mixes carriers or is unknown to the oracle", e.loc)
+        else:
+            col.check(d[0], construct, f"{m} distributes over {a} on {d[1]}",
+                      f"({a}, {m}) is declared distributive but {m} does not distribute over {a}", e.loc)
